@@ -2,6 +2,9 @@
 //   upd_mc pairs            every ordered pair of the version alphabet through parse/compare/notice/self-update
 //   upd_mc checksum         every small checksums.txt through parseChecksum and through performSelfUpdate's gate
 //   upd_mc history <D>      BFS over invocation histories of checkForUpdatesIfDue (state = cache file + clock)
+#include <fcntl.h>
+#include <linux/fs.h>
+#include <sys/ioctl.h>
 #include <sys/stat.h>
 #include <unistd.h>
 
@@ -198,7 +201,9 @@ static void runPairs() {
                 {
                     Cap cap;
                     try {
-                        printed = maybePrintNotice(lat, cur, Clock::now(), cache);
+                        // decision and text are separate functions since the notice is recorded before it is printed
+                        printed = noticeDue(lat, cur, Clock::now(), cache);
+                        if (printed) printNotice(lat, cur);
                     } catch (const std::exception& e) {
                         threw = true;
                         text = e.what();
@@ -206,7 +211,7 @@ static void runPairs() {
                     if (!threw) text = cap.out.str();
                 }
                 if (threw)
-                    violation("notice:throws", "maybePrintNotice throws " + text, cs);
+                    violation("notice:throws", "noticeDue/printNotice throws " + text, cs);
                 else {
                     if (printed != !text.empty()) violation("notice:return-vs-output", "return value and printed text disagree", cs);
                     if (printed) ++announced;
@@ -412,12 +417,26 @@ struct Event {
     int64_t dt;
     int fetch;  // 0 fails, 1 same, 2 newer, 3 older, 4 garbage, 5 newer2
     int env;    // 0 none, 1 BLOCH_NO_UPDATE_CHECK, 2 CI, 3 BLOCH_OFFLINE
+    int lock;   // 1: the cache file exists but cannot be written during this invocation (immutable flag; what a root-owned cache is to a user)
     std::string str() const {
         static const char* F[] = {"fetch-fails", "same", "newer", "older", "garbage", "newer2"};
         static const char* E[] = {"", " env=BLOCH_NO_UPDATE_CHECK", " env=CI", " env=BLOCH_OFFLINE"};
-        return "+" + std::to_string(dt) + "s " + F[fetch] + E[env];
+        return "+" + std::to_string(dt) + "s " + F[fetch] + E[env] + (lock ? " cache-read-only" : "");
     }
 };
+// make the cache file unwritable even for root; returns false where the file system or the sandbox does not allow it
+static bool setImmutable(const std::filesystem::path& p, bool on) {
+    int fd = open(p.c_str(), O_RDONLY);
+    if (fd < 0) return false;
+    int fl = 0;
+    bool ok = ioctl(fd, FS_IOC_GETFLAGS, &fl) == 0;
+    if (ok) {
+        if (on) fl |= FS_IMMUTABLE_FL; else fl &= ~FS_IMMUTABLE_FL;
+        ok = ioctl(fd, FS_IOC_SETFLAGS, &fl) == 0;
+    }
+    close(fd);
+    return ok;
+}
 static const std::string CURRENT = "1.2.3";
 static std::string tagFor(int f) {
     switch (f) {
@@ -459,7 +478,8 @@ static void runHistory(int D) {
     HState init{"<none>", 1700000000, -1, {}};
     q.push_back(init);
     seen.insert(init.cache + "|-1");
-    long transitions = 0, notices = 0, fetches = 0;
+    long transitions = 0, notices = 0, fetches = 0, lockedRuns = 0;
+    bool lockSupported = true;
     int maxDepth = 0;
     std::set<std::string> outcomes;
     while (!q.empty()) {
@@ -469,11 +489,19 @@ static void runHistory(int D) {
         if ((int)s.hist.size() >= D) continue;
         for (int64_t dt : dts)
             for (int fetch = 0; fetch < 6; ++fetch)
-                for (int env = 0; env < 4; ++env) {
+                for (int envlock = 0; envlock < 5; ++envlock) {
+                    int env = envlock < 4 ? envlock : 0, lock = envlock == 4 ? 1 : 0;
                     if (env != 0 && !(fetch == 2)) continue;  // disabling variables: only with the most tempting fetch
-                    Event ev{dt, fetch, env};
+                    if (lock && (s.cache == "<none>" || !lockSupported)) continue;
+                    Event ev{dt, fetch, env, lock};
                     ++transitions;
                     writeCacheFile(s.cache);
+                    if (lock && !setImmutable(cacheFilePath(), true)) {
+                        lockSupported = false;
+                        --transitions;
+                        continue;
+                    }
+                    lockedRuns += lock;
                     g_fakeNowSec = s.now + dt;
                     unsetenv("BLOCH_NO_UPDATE_CHECK");
                     unsetenv("CI");
@@ -498,6 +526,7 @@ static void runHistory(int D) {
                         }
                         out = cap.out.str();
                     }
+                    if (lock) setImmutable(cacheFilePath(), false);
                     std::vector<Event> h2 = s.hist;
                     h2.push_back(ev);
                     std::string hs;
@@ -555,7 +584,7 @@ static void runHistory(int D) {
     unsetenv("BLOCH_NO_UPDATE_CHECK");
     unsetenv("CI");
     unsetenv("BLOCH_OFFLINE");
-    printf("{\"mode\":\"history\",\"depth\":%d,\"states\":%zu,\"transitions\":%ld,\"notices\":%ld,\"fetches\":%ld,\"max_depth\":%d,\"outcome_classes\":%zu,\"samples\":[%s],", D, seen.size(), transitions,
+    printf("{\"mode\":\"history\",\"read_only_cache_runs\":%ld,\"read_only_cache_supported\":%s,\"depth\":%d,\"states\":%zu,\"transitions\":%ld,\"notices\":%ld,\"fetches\":%ld,\"max_depth\":%d,\"outcome_classes\":%zu,\"samples\":[%s],", lockedRuns, lockSupported ? "true" : "false", D, seen.size(), transitions,
            notices, fetches, maxDepth, outcomes.size(), jstr("+0s newer; +259199s same; +259200s newer2;").c_str());
     printViolations();
 }
